@@ -1,17 +1,21 @@
 """The implementation side of spec/Savable.tla (C19).
 
 An instance of the specification's universe (chain of auto_persist declarations, instantiated class, member kinds,
-loader configuration, unknown-class flavour) is turned into real classes (built with type(), registered in a module
-object inserted in sys.modules so that object loaders can resolve them) and a real object; the object is saved, the
-original is mutated, the saved state is loaded and saved again.  `execute` returns the observation in the vocabulary of
-the specification's `out` record: stage/exception, facts about the loaded object (sets of (path, kind, detail)),
-second save == first save, saved state unchanged by the mutation, and whether the custom loader resolved the class.
+loader configuration, unknown-class / unknown-loader flavour, how the load context is supplied, what was loaded through
+it before) is turned into real classes (built with type(), registered in a module object inserted in sys.modules so that
+object loaders can resolve them) and a real object; (a prior bundle is loaded, another class of the chain is used,) the
+object is saved, the original is mutated, the saved state is loaded and saved again - every load of the session through the
+same load context (None, or ONE LoadSaveContext object).  `execute` returns the observation in the vocabulary of the
+specification's `out` record: stage/exception, facts about the loaded object (sets of (path, kind, detail)), second save ==
+first save, saved state unchanged by the mutation, which loader resolved the class (of the bundle under test and of the
+prior one), and the loader found in the caller's load context afterwards.
 
-Only public plumpy API is used: Savable, auto_persist, LoadSaveContext, SavableFuture, ObjectLoader,
-get/set_object_loader.
+Only public plumpy API is used: Savable, auto_persist, LoadSaveContext (and its public attribute `loader`), SavableFuture,
+ObjectLoader, DefaultObjectLoader, get/set_object_loader.
 """
 import asyncio
 import inspect
+import re
 import sys
 import types
 
@@ -67,6 +71,36 @@ def setup():
     CustomLoader.__qualname__ = 'CustomLoader'
     mod.CustomLoader = CustomLoader
 
+    class AliasLoader(loaders.DefaultObjectLoader):
+        """A loader that keeps writing the stable legacy name L<i> for the chain class K<i>: identifiers in the DEFAULT loader's
+        format, which the default loader resolves too - to the stand-in class that lives under that name."""
+        calls = []
+        _legacy = re.compile(r'^%s:L(\d)$' % re.escape(MODNAME))
+
+        def load_object(self, identifier):
+            AliasLoader.calls.append(identifier)
+            m = self._legacy.match(identifier) if isinstance(identifier, str) else None
+            if m:
+                try:
+                    return getattr(mod, 'K' + m.group(1))
+                except AttributeError:
+                    raise ValueError('no class carries the legacy name %r today' % (identifier,))
+            return super().load_object(identifier)
+
+        def identify_object(self, obj):
+            m = re.match(r'^K(\d)$', getattr(obj, '__name__', ''))
+            if m and obj.__module__ == MODNAME:
+                return '%s:L%s' % (MODNAME, m.group(1))
+            ident = super().identify_object(obj)         # verifies by loading
+            AliasLoader.calls.pop()
+            return ident
+    AliasLoader.__module__ = MODNAME
+    AliasLoader.__qualname__ = 'AliasLoader'
+    mod.AliasLoader = AliasLoader
+    # the stand-ins: Savables that declare nothing, under the legacy names
+    for i in (1, 2, 3):
+        setattr(mod, 'L%d' % i, type('L%d' % i, (plumpy.Savable,), {'__module__': MODNAME}))
+
     def plain(path):
         return {'c': ['v:' + path]}
 
@@ -113,7 +147,7 @@ def setup():
             return N2(path)
         return fut(kind, path)
 
-    _S.update(plumpy=plumpy, loaders=loaders, mod=mod, loop=loop, CustomLoader=CustomLoader, N1=N1, N2=N2, make=make, chains={})
+    _S.update(plumpy=plumpy, loaders=loaders, mod=mod, loop=loop, CustomLoader=CustomLoader, AliasLoader=AliasLoader, N1=N1, N2=N2, make=make, chains={})
     return _S
 
 
@@ -283,23 +317,87 @@ def tamper(saved, how):
         del saved[META]['class_name']
     elif how == 'nometa':
         del saved[META]
+    elif how == 'noldr':
+        saved[META]['user']['object_loader'] = unknown_name(saved[META]['user']['object_loader'])
+    elif how == 'badldr':
+        saved[META]['user']['object_loader'] = 'X-' + saved[META]['user']['object_loader'].replace(':', '-').replace('|', '-')
     elif how == 'nested':
         for k, v in saved.items():
             if k != META and isinstance(v, dict) and META in v:
                 v[META]['class_name'] = unknown_name(v[META]['class_name'])
 
 
+def save_loader(S, cfg):
+    """The loader of the save context of a loader configuration (None = no save context)."""
+    if cfg in ('persave', 'ctxboth'):
+        return S['CustomLoader']()
+    if cfg == 'peralias':
+        return S['AliasLoader']()
+    return None
+
+
+def loader_tag(S, ldr):
+    if ldr is None:
+        return 'none'
+    if isinstance(ldr, S['CustomLoader']):
+        return 'C'
+    if isinstance(ldr, S['AliasLoader']):
+        return 'A'
+    if type(ldr) is S['loaders'].DefaultObjectLoader:
+        return 'D'
+    return 'other:' + repr(ldr)
+
+
+def used_by(S, ident):
+    """Which recording loader was asked for `ident` since the records were cleared ('-' = neither)."""
+    if ident is None:
+        return '-'
+    if ident in S['CustomLoader'].calls:
+        return 'C'
+    if ident in S['AliasLoader'].calls:
+        return 'A'
+    return '-'
+
+
+def clear_calls(S):
+    del S['CustomLoader'].calls[:]
+    del S['AliasLoader'].calls[:]
+
+
 def execute(inst):
-    """-> observation dict {pre, stage, exc, facts(set of triples), resave, stable, usedC}"""
+    """-> observation dict {prior, priorUsed, pre, stage, exc, facts(set of triples), resave, stable, used, ctx}"""
     S = setup()
     plumpy, loaders, CL = S['plumpy'], S['loaders'], S['CustomLoader']
     classes = build_chain(inst['chain'])
     cfg = inst['ldr']
     loaders.set_object_loader(CL() if cfg == 'global' else None)
     try:
-        sctx = plumpy.LoadSaveContext(loader=CL()) if cfg in ('persave', 'ctxboth') else None
-        lctx = plumpy.LoadSaveContext(loader=CL()) if cfg == 'ctxboth' else None
-        obs = {'pre': '-', 'stage': 'ok', 'exc': '-', 'facts': set(), 'resave': False, 'stable': True, 'usedC': False}
+        sl = save_loader(S, cfg)
+        sctx = plumpy.LoadSaveContext(loader=sl) if sl is not None else None
+        # the load context the caller supplies to EVERY load of the session: one object (or None)
+        if cfg == 'ctxboth':
+            lctx = plumpy.LoadSaveContext(loader=CL())
+        elif inst.get('lc', 'asis') == 'shared':
+            lctx = plumpy.LoadSaveContext()
+        else:
+            lctx = None
+        obs = {'prior': '-', 'priorUsed': '-', 'pre': '-', 'stage': 'ok', 'exc': '-', 'facts': set(), 'resave': False, 'stable': True,
+               'used': '-', 'ctx': 'absent'}
+
+        def seen():
+            obs['ctx'] = 'absent' if lctx is None else loader_tag(S, lctx.loader)
+            return obs
+        if inst.get('prior', 'none') != 'none':
+            # a bundle saved with its own save context is loaded through the session's load context first
+            ident = None
+            try:
+                q = S['N1']('q').save(plumpy.LoadSaveContext(loader=CL()) if inst['prior'] == 'custom' else None)
+                ident = q.get(META, {}).get('class_name')
+                clear_calls(S)
+                plumpy.Savable.load(q, lctx)
+            except BaseException as e:  # noqa
+                obs['prior'] = type(e).__name__
+            obs['priorUsed'] = used_by(S, ident)
         if inst.get('first'):
             # order of use: an instance of another class of the chain is saved and loaded first
             try:
@@ -314,19 +412,20 @@ def execute(inst):
             saved = orig.save(sctx)
         except BaseException as e:  # noqa  (CancelledError is a BaseException)
             obs.update(stage='save', exc=type(e).__name__)
-            return obs
+            return seen()
         tamper(saved, inst['unk'])
         before = canon(saved)
         root_ident = saved.get(META, {}).get('class_name')
         mutate(S, orig)
         obs['stable'] = canon(saved) == before
-        del CL.calls[:]
+        clear_calls(S)
         try:
             loaded = plumpy.Savable.load(saved, lctx)
         except BaseException as e:  # noqa
-            obs.update(stage='load', exc=type(e).__name__, usedC=root_ident in CL.calls)
-            return obs
-        obs['usedC'] = root_ident in CL.calls
+            obs.update(stage='load', exc=type(e).__name__, used=used_by(S, root_ident))
+            return seen()
+        obs['used'] = used_by(S, root_ident)
+        seen()
         facts(S, loaded, 'o', avoid, None, obs['facts'])
         saved_cmp = canon(saved)
         try:
@@ -340,21 +439,28 @@ def execute(inst):
         loaders.set_object_loader(None)
 
 
+def _rec(tag):
+    """A loader of the specification as the recording loaders can witness it."""
+    return tag if tag in ('C', 'A') else '-'
+
+
 def expected(out):
     """The specification's `out` record in the shape of an observation."""
-    return {'pre': out['pre'], 'stage': out['stage'], 'exc': out['exc'], 'facts': set(tuple(f) for f in out['facts']), 'resave': out['resave'],
-            'stable': out['stable'], 'usedC': out['used'] == 'C'}
+    return {'prior': out['prior'], 'priorUsed': _rec(out['priorUsed']), 'pre': out['pre'], 'stage': out['stage'], 'exc': out['exc'],
+            'facts': set(tuple(f) for f in out['facts']), 'resave': out['resave'], 'stable': out['stable'], 'used': _rec(out['used']),
+            'ctx': out['ctx']}
 
 
 def norm_inst(inst):
     """An instance parsed from TLC output -> plain python (chain: list of {'deco','names': sorted list})."""
     return {'chain': [{'way': str(d['way']), 'names': sorted(d['names'])} for d in inst['chain']], 't': int(inst['t']),
-            'kinds': dict(inst['kinds']), 'ldr': str(inst['ldr']), 'unk': str(inst['unk']), 'first': int(inst.get('first', 0))}
+            'kinds': dict(inst['kinds']), 'ldr': str(inst['ldr']), 'unk': str(inst['unk']), 'first': int(inst.get('first', 0)),
+            'lc': str(inst.get('lc', 'asis')), 'prior': str(inst.get('prior', 'none'))}
 
 
 def diff(exp, obs):
     out = []
-    for k in ('pre', 'stage', 'exc', 'resave', 'stable', 'usedC'):
+    for k in ('prior', 'priorUsed', 'pre', 'stage', 'exc', 'resave', 'stable', 'used', 'ctx'):
         if exp[k] != obs[k]:
             out.append([k, exp[k], obs[k]])
     if exp['facts'] != obs['facts']:
